@@ -562,6 +562,8 @@ fn bounds(tier: Tier) -> Vec<(Cfg11, usize)> {
         Tier::Quick => vec![
             (c(Fam::Txt, 0, true, false, 3), 4),
             (c(Fam::Rtx, 0, true, false, 2), 3),
+            // concurrent formatting of overlapping ranges, one key with three values, local and remote
+            (c(Fam::Rtx, 3, true, false, 1), 3),
             (c(Fam::Arr, 0, true, false, 3), 4),
             (c(Fam::Map, 1, true, false, 3), 4),
             (c(Fam::Nest, 0, true, false, 2), 3),
@@ -574,6 +576,7 @@ fn bounds(tier: Tier) -> Vec<(Cfg11, usize)> {
             (c(Fam::Txt, 0, false, false, 3), 5),
             (c(Fam::Rtx, 0, true, false, 3), 4),
             (c(Fam::Rtx, 1, true, false, 2), 3),
+            (c(Fam::Rtx, 3, true, false, 2), 4),
             (c(Fam::Arr, 1, true, false, 3), 4),
             (c(Fam::Arr, 0, true, false, 3), 5),
             (c(Fam::Map, 1, true, false, 3), 5),
@@ -656,7 +659,8 @@ fn dfs(ctx: &mut Ctx, cfg: &Cfg11, max: usize, trace: &mut Vec<A11>, visited: &m
                 acts.push(A11::Txn(ops));
             }
         }
-        for op in gen_ops(cfg.fam, &w.e.dump(), w.nops, 0) {
+        // the remote author uses the simplest alphabet, except in the formatting-focused configuration
+        for op in gen_ops(cfg.fam, &w.e.dump(), w.nops, if cfg.level == 3 { 3 } else { 0 }) {
             if ok(&op) {
                 acts.push(A11::E(op));
             }
